@@ -367,3 +367,309 @@ def mixed_cycle(rng):
             insts.append(Obj([("other", inner)]))
     rng.shuffle(insts)
     return {"schema": root, "docs": docs, "base": "http://x.test/mix/root.json", "loader": True, "insts": insts[:12]}
+
+
+def registry_alias(rng, draft="2020"):
+    """A schema registry whose Loader serves ONE parsed *Schema object under two URLs (a versioned directory and an alias directory,
+    /v1/ and /latest/), including the object that is being resolved (the document under test N is itself served again under the alias
+    URL). N refers to itself through the alias URL and to sibling documents by relative / absolute references and to its own $defs; the
+    two directories hold sibling documents of the same names (different objects with different marks, or — sometimes — one shared
+    object). The harness op is `validate-go` with `aliases`: a Loader handing out shared objects is OUTSIDE the Lean model
+    (`resolve_sound` assumes `LoaderFresh`; the model keeps one info table), so these operations are never sent to the model; they are
+    judged by the expectations computed here from the property statement: N is known to the caller under its versioned URL (BaseURI,
+    or the URL the root document uses for it), so every reference written in N designates what RFC 3986 resolution against THAT URL
+    gives. Only instance paths whose meaning does not depend on the URL a shared object was entered by are observed: N's own
+    properties, and — through the alias self-reference — the properties whose reference is absolute or fragment-only.
+    Returns (args, meta)."""
+    defs_kw = "$defs" if draft == "2020" else "definitions"
+    host = rng.choice(["http://reg.test", "https://reg.test/schemas", "http://reg.test/a/b"])
+    dn = rng.sample(["v1", "latest", "v2", "stable", "2024-01"], 2)
+    d0, d1 = host + "/" + dn[0] + "/", host + "/" + dn[1] + "/"
+    nfile = rng.choice(["node.json", "root.json", "n"])
+    files = rng.sample(["types.json", "b.json", "sub/c.json", "t"], rng.randint(1, 2))
+    n_url, n_alias = d0 + nfile, d1 + nfile
+    mark_n = [0]
+
+    def new_mark():
+        mark_n[0] += 1
+        return "R%d" % mark_n[0]
+
+    def anchored(m):
+        t = Obj([("const", m)])
+        if draft == "2020":
+            t.set("$anchor", "tgt")
+        else:
+            t.set("$id", "#tgt")
+        return t
+
+    # (the anchor has the same NAME in the two directories' siblings: the document served under the alias URL must be free of dangling
+    # references too — it is resolved under that URL as well)
+    docs, aliases = [], []
+    sib = {}     # url -> (root mark, inner mark)
+    for f in files:
+        m0, m1 = new_mark(), new_mark()
+        body = Obj([(defs_kw, Obj([("t", anchored(m1))])), ("const", m0)])
+        if rng.random() < 0.3:
+            # back into the document under test, by a relative reference (guarded by `properties`): a cycle through N
+            body.set("properties", Obj([("back", Obj([("$ref", ("../" if "/" in f else "") + nfile)]))]))
+            body.kvs = [kv for kv in body.kvs if kv[0] != "const"] + [("required", ["k" + m0])]
+            m0 = None
+        docs.append([d0 + f, body])
+        sib[d0 + f] = (m0, m1)
+        if rng.random() < 0.25:
+            aliases.append([d1 + f, d0 + f])          # one object under both names
+            sib[d1 + f] = (m0, m1)
+        else:
+            m2, m3 = new_mark(), new_mark()
+            docs.append([d1 + f, Obj([(defs_kw, Obj([("t", anchored(m3))])), ("const", m2)])])
+            sib[d1 + f] = (m2, m3)
+    lm = new_mark()
+    props, exp_t, needs = Obj(), {}, set()
+    pnames = rng.sample(["a0", "b1", "k2", "m3", "t4", "x5", "z6"], rng.randint(2, 4))
+    any_fragless = {}
+    for pn in sorted(pnames):
+        r = rng.random()
+        if r < 0.15:
+            props.kvs.append((pn, Obj([("$ref", "#/" + defs_kw + "/loc")])))
+            exp_t[pn] = (lm, True)
+            continue
+        url = rng.choice(sorted(sib)) if r < 0.35 else d0 + rng.choice(files)
+        m0, m1 = sib[url]
+        kind = rng.choice(["root", "ptr", "anchor"]) if m0 is not None else rng.choice(["ptr", "anchor"])
+        frag, m = {"root": (rng.choice(["", "#"]), m0), "ptr": ("#/" + defs_kw + "/t", m1), "anchor": ("#tgt", m1)}[kind]
+        spelled = relativize(rng, n_url, url) if rng.random() < 0.8 else url
+        assert join(n_url, spelled) == url, (n_url, spelled, url)
+        props.kvs.append((pn, Obj([("$ref", spelled + frag)])))
+        exp_t[pn] = (m, is_abs(spelled))
+        needs.add(url)
+    self_kind = rng.random()
+    if self_kind < 0.85:
+        props.kvs.append(("self", Obj([("$ref", n_alias)])))         # itself, through the alias URL
+    elif self_kind < 0.93:
+        props.kvs.append(("self", Obj([("$ref", rng.choice([n_url, nfile, "#"]))])))
+    props.kvs.sort(key=lambda kv: kv[0])
+    N = Obj([(defs_kw, Obj([("loc", Obj([("const", lm)]))])), ("properties", props)])
+    with_id = rng.random() < 0.15
+    if with_id:
+        N.kvs.insert(0, ("$id", n_url))
+    d7 = [("$schema", "http://json-schema.org/draft-07/schema#")] if draft == "7" else []
+    marks = ["R%d" % k for k in range(1, mark_n[0] + 1)]
+    insts, expect = [], []
+    as_root = rng.random() < 0.6
+    if as_root:
+        root = Obj(d7 + N.kvs)
+        base = n_url if not with_id or rng.random() < 0.5 else ""
+        aliases += [[n_url, "#root"], [n_alias, "#root"]]
+        wrap = lambda x: x
+    else:
+        root = Obj(d7 + [("properties", Obj([("n", Obj([("$ref", n_url)]))]))])
+        base = rng.choice(["", host + "/app/root.json", "urn:example:app"])
+        docs.append([n_url, N])
+        aliases.append([n_alias, n_url])
+        needs.add(n_url)
+        wrap = lambda x: Obj([("n", x)])
+    has_self = props.get("self") is not None
+    for pn, (m, unambiguous) in sorted(exp_t.items()):
+        for mm in sorted(set([m] + rng.sample(marks, min(2, len(marks))))):
+            insts.append(wrap(Obj([(pn, mm)])))
+            expect.append(mm == m)
+            if has_self and (unambiguous or with_id):
+                insts.append(wrap(Obj([("self", Obj([(pn, mm)]))])))
+                expect.append(mm == m)
+    if has_self:
+        needs.add(n_alias) if self_kind < 0.85 else None
+    rng.shuffle(docs)
+    args = {"schema": root, "docs": docs, "base": base, "loader": True, "insts": insts, "aliases": aliases}
+    meta = {"kind": "shared", "oracle": True, "expect": expect, "needs": sorted(needs), "nrefs": len(exp_t), "alias_self": self_kind < 0.85,
+            "as_root": as_root}
+    return args, meta
+
+
+SLASH_KW1 = ["not", "if", "then", "else", "items", "contains", "additionalProperties", "propertyNames"]     # schema-valued, both drafts
+SLASH_NONSCHEMA = ["type", "title", "required/0", "enum/0", "const", "nosuch", "minimum", "Not"]
+
+
+def slash_defs(rng, draft="2020", spell=None, where=None):
+    """$defs / definitions member NAMES that contain a raw '/', next to a sibling whose name is a prefix of it: members `X` and
+    `X/Y` where Y is a keyword path of X (`a` and `a/not`, `list` and `list/items`, `x` and `x/type`, `` and `/`). References:
+      raw      #/$defs/X/Y    designates the location Y inside member X (RFC 6901 splits at every '/'), or nothing when X has no
+                              subschema there (Y is not a schema-valued keyword, X is absent, Y is empty) — never the member `X/Y`;
+      escaped  #/$defs/X~1Y   designates the member named `X/Y`, or nothing when there is none — never X's subschema;
+      prefix   #/$defs/X      designates X.
+    The resource that holds the definitions is the root, an embedded $id resource, or a Loader document. `spell(ptr)` renders the
+    pointer as a URI fragment (default: canonical percent-encoding; C17 passes over-encoded spellings such as %2F for '/': RFC 3986
+    decoding precedes the split into segments, so every spelling designates the same location).
+    Returns (args, meta): meta.expect = expected verdicts (None when some reference designates nothing: then
+    meta.expect_outcome = 'resolve-error')."""
+    defs_kw = "$defs" if draft == "2020" else "definitions"
+    if spell is None:
+        spell = frag_encode
+    mark_n = [0]
+
+    def new_mark():
+        mark_n[0] += 1
+        return "S%d" % mark_n[0]
+
+    defs = Obj()
+    fams = []
+    for X in rng.sample(["a", "x", "", "list", "t0", "é", "a b", "%", "a/b", "0"], rng.randint(1, 3)):
+        r = rng.random()
+        if r < 0.5:
+            Y, holds_ok = rng.choice(SLASH_KW1), True
+        elif r < 0.7:
+            Y, holds_ok = rng.choice(["allOf/0", "properties/k", defs_kw + "/in", "anyOf/1"]), True
+        elif r < 0.9:
+            Y, holds_ok = rng.choice(SLASH_NONSCHEMA), False
+        else:
+            Y, holds_ok = "", False
+        fam = {"X": X, "Y": Y, "mx": None, "my": None, "mz": None}
+        if rng.random() < 0.85:
+            body = Obj()
+            holds = holds_ok and rng.random() < 0.75
+            if holds:
+                fam["my"] = new_mark()
+                sub = Obj([("const", fam["my"])])
+                segs = Y.split("/")
+                if segs[0] in ("allOf", "anyOf"):
+                    body.set(segs[0], [Obj([("const", "none")])] * int(segs[1]) + [sub])
+                elif len(segs) == 2:
+                    body.set(segs[0], Obj([(segs[1], sub)]))
+                else:
+                    body.set(Y, sub)
+            if not (holds and Y.split("/")[0] in ("allOf", "anyOf")):     # (there X would accept no mark / several marks: X is no target)
+                fam["mx"] = new_mark()
+                body.set("const", fam["mx"])
+            if not holds_ok and Y in ("type", "title", "minimum") and rng.random() < 0.5:
+                body.set(Y, {"type": "string", "title": "t", "minimum": Num("0")}[Y])     # the keyword is there, but is no subschema
+            if not holds_ok and Y == "required/0" and rng.random() < 0.5:
+                body.set("required", ["r"])
+            fam["has_x"] = True
+            defs.kvs.append((X, body))
+        else:
+            fam["has_x"] = False
+        if rng.random() < 0.85:
+            fam["mz"] = new_mark()
+            defs.kvs.append((X + "/" + Y, Obj([("const", fam["mz"])])))
+        fams.append(fam)
+    # names must be distinct (a family's slashed name can coincide with another family's prefix, e.g. "a/b")
+    seen, kvs = set(), []
+    for k, v in defs.kvs:
+        if k in seen:
+            return slash_defs(rng, draft, spell, where)
+        seen.add(k)
+        kvs.append((k, v))
+    rng.shuffle(kvs)
+    defs.kvs = kvs
+    where = where or rng.choice(["root", "root", "embedded", "loaded"])
+    prefix = {"root": "", "embedded": "http://x.test/sl/emb.json", "loaded": "http://x.test/sl/doc.json"}[where]
+    props, expect_t, dangling = Obj(), [], False
+    allow_dangling = rng.random() < 0.35
+    for i in range(rng.randint(2, 4)):
+        fam = rng.choice(fams)
+        X, Y = fam["X"], fam["Y"]
+        form = rng.choice(["raw", "raw", "escaped", "prefix"])
+        if form == "raw":
+            # (X itself may contain '/', e.g. "a/b": written escaped; the X|Y boundary and the separators inside Y are raw)
+            ptr, m = "/" + defs_kw + "/" + ptr_escape(X) + "/" + Y, fam["my"]
+        elif form == "escaped":
+            ptr, m = "/" + defs_kw + "/" + ptr_escape(X + "/" + Y), fam["mz"]
+        else:
+            ptr, m = "/" + defs_kw + "/" + ptr_escape(X), fam["mx"]
+            if m is None and fam["has_x"]:
+                continue      # X is there but carries no mark of its own (allOf / anyOf holder)
+        if m is None:
+            if not allow_dangling:
+                continue
+            dangling = True
+        props.kvs.append(("p%d" % i, Obj([("$ref", prefix + "#" + spell(ptr))])))
+        expect_t.append(("p%d" % i, m))
+    if not expect_t:
+        return slash_defs(rng, draft, spell, where)
+    d7 = [("$schema", "http://json-schema.org/draft-07/schema#")] if draft == "7" else []
+    docs = []
+    if where == "root":
+        root = Obj(d7 + [(defs_kw, defs), ("properties", props)])
+    elif where == "embedded":
+        root = Obj(d7 + [("$id", "http://x.test/sl/root.json"), (defs_kw, Obj([("E", Obj([("$id", "emb.json"), (defs_kw, defs)]))])), ("properties", props)])
+    else:
+        root = Obj(d7 + [("properties", props)])
+        docs = [["http://x.test/sl/doc.json", Obj([(defs_kw, defs)])]]
+    marks = ["S%d" % k for k in range(1, mark_n[0] + 1)]
+    insts, expect = [], []
+    for pn, m in expect_t:
+        for mm in sorted(set(([m] if m else []) + rng.sample(marks, min(3, len(marks))))):
+            insts.append(Obj([(pn, mm)]))
+            expect.append(mm == m)
+    args = {"schema": root, "insts": insts}
+    if docs:
+        args.update({"docs": docs, "base": "http://x.test/sl/root.json", "loader": True})
+    meta = {"kind": "slashdefs", "expect": None if dangling else expect, "expect_outcome": "resolve-error" if dangling else "resolved",
+            "nrefs": len(expect_t), "nptr": len(expect_t), "where": where}
+    return args, meta
+
+
+# (all but the last are spelled the way net/url writes them back, so the Loader — keyed by URL.String() — finds the documents; the last
+# is re-spelled by net/url (%41 -> A): there Resolve ends with a load error, which is a return too)
+USERINFO = ["user@", "reader@", "u:p@", "a.b:@", "u;v=1@", "u:p%3Aq@", "x%40y:p@", "u$&+,;=:-._~@", "user@", "u:p@", "%41lice:pw@"]
+
+
+def userinfo_cycle(rng):
+    """Loader documents that name each other by ABSOLUTE URIs with a userinfo part (http://user@host/…, http://u:p@host/…) and form a
+    reference cycle (a ring A -> B [-> C] -> A, or a rho A -> B -> C -> B); every hop passes through an instance-descending keyword.
+    The root is the first document itself (its URI given by BaseURI, or by an absolute $id with userinfo) or a separate document
+    that refers to it. Back references are mostly absolute (userinfo spelled out again in every $ref), sometimes relative.
+    The Lean model of net/url does not parse userinfo (Model/Uri.lean: 'outside the modelled subset'), so the op is `validate-go`
+    (never sent to the model) and only C10 uses it: Resolve must RETURN. The Loader gives up after `maxLoads` requests — far more than
+    the universe has documents —, which turns a load/resolve recursion that would never end into an `overrun` reply.
+    Returns (args, meta)."""
+    ui = rng.choice(USERINFO)
+    host = rng.choice(["s.test", "s.test:8080", "schemas.example.com", "[::1]:81"])
+    scheme = rng.choice(["http", "https"])
+    k = rng.choice([2, 2, 3])
+    pre = "%s://%s%s/ui/" % (scheme, ui, host)
+    uris = [pre + "d%d.json" % i for i in range(k)]
+    shape = rng.choice(["ring", "ring", "rho"]) if k == 3 else "ring"
+    nxt = {i: (i + 1) % k for i in range(k)}
+    if shape == "rho":
+        nxt[k - 1] = 1
+    bodies = []
+    for i in range(k):
+        j = nxt[i]
+        r = rng.random()
+        if r < 0.75:
+            ref = uris[j]                                   # absolute, userinfo spelled again
+        elif r < 0.9:
+            ref = "d%d.json" % j                            # relative: inherits the base's userinfo
+        else:
+            ref = "//%s%s/ui/d%d.json" % (ui, host, j)      # network-path reference with userinfo
+        if rng.random() < 0.3:
+            ref += rng.choice(["#", "#/properties/m%d" % j])
+        link = Obj([("$ref", ref)])
+        body = []
+        if rng.random() < 0.3:
+            body.append(("$id", uris[i]))
+        props = Obj([("m%d" % i, Obj([("const", "doc%d" % i)]))])
+        via = rng.choice(["properties", "properties", "items", "additionalProperties"])
+        if via == "properties":
+            props.set("next", link)
+            body.append(("properties", props))
+        else:
+            body += [("properties", props), (via, link)]
+        bodies.append(Obj(body))
+    docs = [[uris[i], bodies[i]] for i in range(k)]
+    r = rng.random()
+    if r < 0.4:
+        root, base = Obj(list(bodies[0].kvs)), uris[0]
+    elif r < 0.6:
+        root, base = Obj(list(bodies[0].kvs)), ""
+        if root.get("$id") is None:
+            root.kvs.insert(0, ("$id", uris[0]))
+    else:
+        root, base = Obj([("properties", Obj([("next", Obj([("$ref", uris[0])]))]))]), rng.choice(["http://x.test/app.json", pre + "root.json", ""])
+    insts = []
+    for i in range(k):
+        inner = Obj([("m%d" % i, "doc%d" % rng.randrange(k))])
+        insts += [inner, Obj([("next", inner)]), Obj([("next", Obj([("next", inner)]))]), [inner], Obj([("zz", inner)])]
+    rng.shuffle(insts)
+    args = {"schema": root, "docs": docs, "base": base, "loader": True, "insts": insts[:6], "maxLoads": 8 * k + 16}
+    return args, {"universe": True, "userinfo": True, "ndocs": k, "shape": shape}
